@@ -174,6 +174,32 @@ func (c *Config) BuildNF(o *NFOptions) *NF {
 			// only when referenced
 		default:
 			nf.Others[s.Kind+" "+s.Name] = append(nf.Others[s.Kind+" "+s.Name], c.sectionNF(s, o)...)
+			// the maps of a tcp frontend (SNI hostname -> backend) are its routing table: no http request of the
+			// alphabet goes through them, so their entries are part of the section's normal form
+			if s.Kind == "frontend" && strings.HasPrefix(s.Name, "_front_tcp_") {
+				for _, l := range s.Lines {
+					for _, t := range l.Tok {
+						for _, item := range splitTop(t, ',') {
+							name, args, ok := nameArgs(item)
+							if !ok || !strings.HasPrefix(name, "map") {
+								continue
+							}
+							file := splitTop(args, ',')[0]
+							mm := c.Map(file)
+							if mm.Err != nil {
+								nf.Others[s.Kind+" "+s.Name] = append(nf.Others[s.Kind+" "+s.Name], "map "+o.norm(file)+": unreadable")
+								continue
+							}
+							var entries []string
+							for _, en := range mm.Entries {
+								entries = append(entries, "map "+o.norm(file)+": "+en.Key+" -> "+en.Value)
+							}
+							sort.Strings(entries)
+							nf.Others[s.Kind+" "+s.Name] = append(nf.Others[s.Kind+" "+s.Name], entries...)
+						}
+					}
+				}
+			}
 			// tcp frontends and auth proxies reach backends statically
 			for _, l := range s.Lines {
 				if (l.Tok[0] == "use_backend" || l.Tok[0] == "default_backend") && len(l.Tok) > 1 && !strings.Contains(l.Tok[1], "%[") {
